@@ -168,7 +168,8 @@ def truth_of_package_values(model: Model, run: Run, mr, rule: str, what: str) ->
             if t0[0] == "inst" and t0[1] in model.classes and t0[1].startswith("sansldap.") and not model.classes[t0[1]].is_enum and \
                     any(model.classes[k_].is_dataclass for k_ in model.classes[t0[1]].mro if k_ in model.classes):
                 # value types only (dataclasses): a reader or a writer is *meant* to be tested for "anything left"
-                caps = [q for q in model.subclasses(t0[1]) if any(mn in model.classes[q].methods for mn in ("__bool__", "__len__"))]
+                # (a hook inherited from a mixin anywhere in the class's MRO counts: `class FilterAnd(LDAPFilter, _Collection)`)
+                caps = [q for q in model.subclasses(t0[1]) if any(mn in model.classes[k__].methods for k__ in model.classes[q].mro if k__ in model.classes for mn in ("__bool__", "__len__"))]
                 if caps:
                     risky[k] = caps
         if not risky:
@@ -200,7 +201,7 @@ def decoded_values_not_tested_for_truth(model: Model, run: Run, mr) -> None:
     base = "sansldap._messages.LDAPMessage"
     if base not in model.classes:
         raise AnalysisError("LDAPMessage not found")
-    falsy_capable = sorted(q for q in model.subclasses(base) if any(mn in model.classes[q].methods for mn in ("__bool__", "__len__")))
+    falsy_capable = sorted(q for q in model.subclasses(base) if any(mn in model.classes[k__].methods for k__ in model.classes[q].mro if k__ in model.classes for mn in ("__bool__", "__len__")))
     run.coverage["message_classes_with_truth_dunder"] = [q.split(".")[-1] for q in falsy_capable]
     n = 0
     for fq, fi in list(model.functions.items()):
